@@ -463,6 +463,8 @@ func build(s *core.Shard, i int) *Case {
 	for _, n := range nodes {
 		dirs = append(dirs, n.projDir)
 	}
+	absPD := false
+	earlier := map[string]string{} // earlier env file -> the env file listed after it
 	includeEntry := func(p, ch *node) any {
 		path := dotted(rel(p.dir, ch.file), r.Intn(2) == 0)
 		if !ch.long {
@@ -475,14 +477,25 @@ func build(s *core.Shard, i int) *Case {
 		e := decomp.OM{{K: "path", V: pv}}
 		if ch.pdMode != "default" {
 			pd := rel(p.dir, ch.projDir)
-			e = append(e, decomp.KVp{K: "project_directory", V: dotted(pd, r.Intn(2) == 0 && pd != ".")})
+			if r.Intn(3) == 0 {
+				// an absolute project directory (what `${PWD}/mod` gives)
+				e = append(e, decomp.KVp{K: "project_directory", V: rootMark + "/" + ch.projDir})
+				absPD = true
+			} else {
+				e = append(e, decomp.KVp{K: "project_directory", V: dotted(pd, r.Intn(2) == 0 && pd != ".")})
+			}
 		}
 		if ch.envMode == "env_file" {
 			ef := dotted(rel(p.dir, ch.envFile), r.Intn(2) == 0)
-			if r.Intn(2) == 0 {
+			switch r.Intn(4) {
+			case 0:
 				e = append(e, decomp.KVp{K: "env_file", V: ef})
-			} else {
+			case 1:
 				e = append(e, decomp.KVp{K: "env_file", V: []any{ef}})
+			default:
+				// an earlier env file defining the same names with other values: the later one wins
+				earlier[ch.envFile+".first"] = ch.envFile
+				e = append(e, decomp.KVp{K: "env_file", V: []any{dotted(rel(p.dir, ch.envFile+".first"), r.Intn(2) == 0), ef}})
 			}
 		}
 		r.Shuffle(len(e), func(a, b int) { e[a], e[b] = e[b], e[a] })
@@ -628,6 +641,31 @@ func build(s *core.Shard, i int) *Case {
 	}
 	for f, content := range extraFiles {
 		distFiles[f] = content
+	}
+	for first, later := range earlier {
+		var keys []string
+		for k := range dirEnv[later] {
+			keys = append(keys, k)
+		}
+		sort.Strings(keys)
+		var sb strings.Builder
+		sb.WriteString("ONLY_IN_THE_EARLIER_FILE=1\n")
+		for _, k := range keys {
+			sb.WriteString(k + "=wrong-from-the-earlier-env-file\n")
+		}
+		distFiles[first] = sb.String()
+		c.Uses++
+	}
+	if absPD {
+		s.Cover("include-entry", "absolute project_directory")
+		if c.Input == "two-routes" {
+			// same root cause as the recorded two-routes finding: one route yields absolute paths,
+			// the other relative ones, and imports are compared as text before the final resolution
+			c.Input = "two-routes-one-through-an-absolute-project_directory"
+		}
+	}
+	if len(earlier) > 0 {
+		s.Cover("include-entry", "two env files, the later overriding the earlier")
 	}
 	// the pasted document: everything in one file
 	one := &node{res: map[string][]string{}}
